@@ -557,18 +557,62 @@ pub fn translate_unit(src: &Path, unit: &Unit, g: &mut Global) -> R<String> {
             Item::MethodRewritten(owner, method, new_name, params, result_ty, rewrites) => {
                 use quote::ToTokens;
                 let m = find_method(&file, owner, method)?;
-                let mut body_text = m.block.to_token_stream().to_string();
-                let canon = |t: &str| -> R<String> {
+                // token-level matching: the flattened token sequences are compared ignoring the spacing flags of
+                // punctuation (the printer and the lexer disagree on `?;`), the text is rebuilt with the flags kept
+                fn flat(ts: proc_macro2::TokenStream, out: &mut Vec<(String, bool)>) {
+                    for tt in ts {
+                        match tt {
+                            proc_macro2::TokenTree::Group(g) => {
+                                let (o, c) = match g.delimiter() {
+                                    proc_macro2::Delimiter::Parenthesis => ("(", ")"),
+                                    proc_macro2::Delimiter::Brace => ("{", "}"),
+                                    proc_macro2::Delimiter::Bracket => ("[", "]"),
+                                    proc_macro2::Delimiter::None => ("", ""),
+                                };
+                                out.push((o.to_string(), false));
+                                flat(g.stream(), out);
+                                out.push((c.to_string(), false));
+                            }
+                            proc_macro2::TokenTree::Punct(p) => out.push((p.as_char().to_string(), p.spacing() == proc_macro2::Spacing::Joint)),
+                            other => out.push((other.to_string(), false)),
+                        }
+                    }
+                }
+                let parse = |t: &str| -> R<Vec<(String, bool)>> {
                     let ts: proc_macro2::TokenStream = t.parse().map_err(|e| format!("internal: rewrite pattern `{}`: {}", t, e))?;
-                    Ok(ts.to_string())
+                    let mut v = vec![];
+                    flat(ts, &mut v);
+                    Ok(v)
                 };
+                let mut body: Vec<(String, bool)> = vec![];
+                flat(m.block.to_token_stream(), &mut body);
                 for (pat, rep) in rewrites.iter() {
-                    let p = canon(pat)?;
-                    let r = canon(rep)?;
-                    if !body_text.contains(&p) {
+                    let p = parse(pat)?;
+                    let r = parse(rep)?;
+                    let mut out: Vec<(String, bool)> = vec![];
+                    let mut i = 0;
+                    let mut hits = 0;
+                    while i < body.len() {
+                        if !p.is_empty() && i + p.len() <= body.len() && body[i..i + p.len()].iter().zip(p.iter()).all(|(a, b)| a.0 == b.0) {
+                            out.extend(r.iter().cloned());
+                            i += p.len();
+                            hits += 1;
+                        } else {
+                            out.push(body[i].clone());
+                            i += 1;
+                        }
+                    }
+                    if hits == 0 {
                         return Err(format!("unsupported: {}::{} no longer contains `{}` (rewrite rule of the reading)", owner, method, pat));
                     }
-                    body_text = body_text.replace(&p, &r);
+                    body = out;
+                }
+                let mut body_text = String::new();
+                for (t, joint) in &body {
+                    body_text.push_str(t);
+                    if !joint {
+                        body_text.push(' ');
+                    }
                 }
                 if rename_self(&body_text) != body_text {
                     return Err(format!("unsupported: {}::{} still mentions `self` after the rewrites", owner, method));
